@@ -504,6 +504,7 @@ CORPUS = [
 def main():
     ck = Check('C18')
     ck.trusted = ['Coq 8.16.1 kernel (no native_compute)',
+                  'translate/kspec_c18.py (ast skeleton extractor: action / condition / pure-statement tables)',
                   'extraction: ExtrOcamlBasic only; extract/c18_run.ml driver; OCaml 4.13.1',
                   'harness/sim/clfscript.py: scripted device / tag / llc / emulation stand-ins and the event recorder',
                   'harness/prop/c18.py: case generator, comparison, monitor']
@@ -516,7 +517,8 @@ def main():
                       'live parts: real nfc.tag.activate / presence checks of every tag class over canned healthy-tag '
                       'answers with injected Timeout/Transmission/Protocol errors; real LogicalLinkController over scripted '
                       'MAC objects (the NFC-DEP layer itself is the subject of C04/C19)']
-    ck.coq(gen=[], targets=['Proofs/ConnectSense.vo', 'Proofs/Connect.vo', 'Proofs/ConnectTrace.vo', 'Proofs/ConnectFuel.vo'], props='C18')
+    ck.coq(gen=['ConnectSkel'], targets=['Proofs/ConnectSense.vo', 'Proofs/Connect.vo', 'Proofs/ConnectTrace.vo', 'Proofs/ConnectFuel.vo',
+                                       'Skel/ConnectSyntax.vo', 'Skel/ConnectRun.vo', 'Gen/ConnectSkel.vo', 'Bridge/Connect.vo'], props='C18')
     mr = ck.model()
     if mr is None:
         ck.finish()
